@@ -465,3 +465,7 @@ fn abort(s: &str) -> ! {
     let _bomb = DoublePanic;
     panic!("{}", s);
 }
+
+#[cfg(futures_buffered_verif)]
+#[path = "/verif/hooks/waker_list.rs"]
+mod verif_hooks;
